@@ -20,6 +20,10 @@ type NodeOpts struct {
 	Tune      func(s *litefs.Store)
 	// KernelMount mounts the node's file system through the kernel (driver B).
 	KernelMount bool
+	// Leaser, if set, builds the node's leaser instead of the lease service's
+	// own (e.g. LiteFS's Consul leaser pointed at a fake Consul that is backed by
+	// the lease service).
+	Leaser func(name, hostname, advertiseURL string) (litefs.Leaser, error)
 }
 
 // CNode is one cluster member. The embedded *drv.Node is replaced on restart.
@@ -65,9 +69,17 @@ func (c *Cluster) Start(i int) error {
 	}
 	rc := &RecClient{Inner: lhttp.NewClient()}
 	cn.Client = rc
+	var leaser litefs.Leaser = c.Svc.Leaser(cn.Name, cn.Name, cn.Proxy.URL())
+	if cn.Opts.Leaser != nil {
+		l, err := cn.Opts.Leaser(cn.Name, cn.Name, cn.Proxy.URL())
+		if err != nil {
+			return err
+		}
+		leaser = l
+	}
 	n, err := drv.NewNode(drv.Config{
 		Dir: cn.Dir, Candidate: cn.Opts.Candidate, HTTP: true, Client: rc, KernelMount: cn.Opts.KernelMount,
-		Leaser:  c.Svc.Leaser(cn.Name, cn.Name, cn.Proxy.URL()),
+		Leaser:  leaser,
 		PreOpen: cn.PreOpen,
 		Tune: func(s *litefs.Store) {
 			s.DatabaseFilter = cn.Opts.Filter
